@@ -103,8 +103,6 @@ type Decoder struct {
 	growing []unsafe.Pointer
 	// converted: see rememberConverted
 	converted map[convertedKey]interface{}
-	// recoded: see recode
-	recoded map[recodedKey]reflect.Value
 	// depth counts the containers being decoded, one inside the other (see enter)
 	depth int
 	Error error
@@ -300,7 +298,6 @@ func (dec *Decoder) Reset() *Decoder {
 	dec.granted = 0
 	dec.listGranted = 0
 	dec.converted = nil
-	dec.recoded = nil
 	dec.growing = nil
 	return dec
 }
@@ -376,89 +373,12 @@ func (dec *Decoder) convertReference(o interface{}, p interface{}) {
 			slice.Index(i).SetUint(bytes.Index(i).Uint())
 		}
 		reflect.ValueOf(p).Elem().Set(slice)
-	} else if dec.recode(o, p, src, dest) {
-		// (a list, a map or an object read earlier, referred to by a destination of another type)
 	} else if dec.Error == nil {
 		dec.Error = CastError{
 			Source:      src,
 			Destination: dest,
 		}
 	}
-}
-
-var (
-	interfaceSliceType        = reflect.TypeOf(([]interface{})(nil))
-	stringInterfaceMapType    = reflect.TypeOf((map[string]interface{})(nil))
-	interfaceInterfaceMapType = reflect.TypeOf((map[interface{}]interface{})(nil))
-)
-
-type recodedKey struct {
-	item encodePathKey
-	dest reflect.Type
-}
-
-// recode serves a reference to a list, a map or an object that was read earlier into an
-// interface{} and is now referred to by a typed destination that no converter serves (a list
-// read as []interface{} referred to by a []int parameter: what a peer sends for one array
-// passed for an interface{} and a []int parameter): the item is written out again and decoded
-// into the destination, as the item written out in full at that place would be. Once per item and destination type: the
-// references that follow share the result, as they share the item.
-func (dec *Decoder) recode(o interface{}, p interface{}, src reflect.Type, dest reflect.Type) bool {
-	// only from the shapes an interface{} destination gives an item: they hold all of it. What
-	// a typed destination has made of the item may be less than the item (an object read
-	// into a struct that lacks one of its fields), and a value made from that would be less
-	// than the item too, silently: such a reference stays a cast error.
-	generic := src
-	if generic.Kind() == reflect.Ptr {
-		generic = generic.Elem()
-	}
-	switch generic {
-	case interfaceSliceType, stringInterfaceMapType, interfaceInterfaceMapType:
-	default:
-		return false
-	}
-	item, identified := encodePathKeyOf(o)
-	key := recodedKey{item, dest}
-	if identified {
-		if v, ok := dec.recoded[key]; ok {
-			reflect.ValueOf(p).Elem().Set(v)
-			return true
-		}
-	}
-	v := reflect.ValueOf(o)
-	if v.Kind() == reflect.Ptr {
-		if v.IsNil() {
-			return false
-		}
-		v = v.Elem()
-	}
-	if v.IsNil() {
-		// (an empty list comes into an interface{} as a nil slice: it is a list still)
-		if v.Kind() != reflect.Slice {
-			return false
-		}
-		o = reflect.MakeSlice(v.Type(), 0, 0).Interface()
-	}
-	enc := new(Encoder).Simple(false)
-	if enc.Encode(o) != nil {
-		return false
-	}
-	again := NewDecoder(enc.Bytes()).Simple(false)
-	again.MapType, again.StructType, again.ListType = dec.MapType, dec.StructType, dec.ListType
-	again.LongType, again.RealType = dec.LongType, dec.RealType
-	result := reflect.New(dest)
-	again.Decode(result.Interface())
-	if again.Error != nil {
-		return false
-	}
-	reflect.ValueOf(p).Elem().Set(result.Elem())
-	if identified {
-		if dec.recoded == nil {
-			dec.recoded = make(map[recodedKey]reflect.Value)
-		}
-		dec.recoded[key] = result.Elem()
-	}
-	return true
 }
 
 // ResetReader reuse decoder instance by specifying another reader.
